@@ -21,10 +21,12 @@ def desc_files(desc):
 
 def desc_key(desc):
     return h8([desc["fam"], sorted(desc.get("knobs", {}).items(), key=repr),
-               sorted(desc.get("over", {}).items(), key=repr), sorted(desc.get("env", {}).items())])
+               sorted(desc.get("over", {}).items(), key=repr), sorted(desc.get("env", {}).items()),
+               desc.get("act")])
 
 
 def knob_edits(desc):
+    desc = {k: v for k, v in desc.items() if k != "act"}
     dom = projects.DOMAINS.get(desc["fam"], {})
     cur = {**{k: v[0] for k, v in dom.items()}, **desc.get("knobs", {})}
     for knob, values in dom.items():
@@ -47,6 +49,7 @@ def knob_edits(desc):
 
 def source_edits(desc, kinds=("change", "delete")):
     """Edits of plain source files (not scripts): change the content, delete, restore."""
+    desc = {k: v for k, v in desc.items() if k != "act"}
     base = getattr(projects, desc["fam"])(**desc.get("knobs", {}))
     over = desc.get("over", {})
     for path, content in sorted(base.items()):
@@ -79,10 +82,33 @@ def sync(world, old_files, new_files):
         if path.endswith("/"):
             world.mkdir(path)
         elif old_files.get(path) != content or not world.exists(path):
+            if os.path.isdir(world.abspath(path)):
+                world.remove(path)
             world.write(path, content)
     for path in sorted(old_files):
         if path not in new_files and not path.endswith("/") and world.exists(path):
             world.remove(path)
+
+
+def user_action(world, action, path):
+    """What a user may do to a path between two builds (C06)."""
+    if action == "overwrite":
+        if os.path.isdir(world.abspath(path)):
+            world.remove(path)
+        world.write(path, "overwritten by the user\n")
+    elif action == "delete":
+        world.remove(path)
+    elif action == "to_dir":
+        world.remove(path)
+        world.mkdir(path)
+        world.write(path + "/inside.txt", "user file inside\n")
+    elif action == "foreign":
+        if not os.path.isdir(world.abspath(path)):
+            world.write(path, "foreign file\n")
+    elif action == "touch":
+        world.touch(path)
+    else:
+        raise ValueError(action)
 
 
 def build(world, desc, cfg=None, prefix=(), want_raw=True):
@@ -121,6 +147,8 @@ def run_history(descs, cfg=None, last_prefix=(), cfgs=None):
             new_files = desc_files(desc)
             sync(world, files, new_files)
             files = new_files
+            for action, path in desc.get("act", ()):
+                user_action(world, action, path)
         c = cfgs[i] if cfgs else cfg
         prefix = last_prefix if i == len(descs) - 1 else ()
         obs = build(world, desc, c, prefix)
@@ -198,6 +226,8 @@ def delta_label(prev, cur):
                 parts.append(f"delete {k}")
             else:
                 parts.append(f"change {k}")
+    for action, path in cur.get("act", ()):
+        parts.append(f"user:{action} {path}")
     pe, ce = prev.get("env", {}), cur.get("env", {})
     for k in sorted(set(pe) | set(ce)):
         if pe.get(k) != ce.get(k):
